@@ -169,6 +169,37 @@ def parse_line(line):
     return cur, ops
 
 
+def in_domain(line):
+    """inside the property's quantifier: callbacks that report success (none of the failing callbacks ERR_CBS, neither in
+    the history nor in a script), a current ring position below 25.  What the scheduler does when a callback fails (the
+    rc < 0 path) is modelled and compared, but the property does not speak about it: a difference there is listed in the
+    evidence and is not a broken tie."""
+    try:
+        cur, ops = parse_line(line)
+    except (ValueError, IndexError):
+        return False
+    if not 0 <= cur < NF:
+        return False
+
+    def cbs(op):
+        if op[0] == "sched":
+            yield op[2]
+        elif op[0] == "set":
+            for e in op[3]:
+                if isinstance(e, tuple):
+                    yield e[1]
+        elif op[0] == "def":
+            yield op[1]
+            for c in op[2]:
+                for x in cbs(c):
+                    yield x
+    for op in ops:
+        for c in cbs(op):
+            if c in ERR_CBS:
+                return False
+    return True
+
+
 def parse_answer(ans):
     """tokens -> per-op observation"""
     res = []
@@ -594,7 +625,7 @@ def correspond(run, corr):
     kinds += ["malformed"] * len(bad) + ["scripted"] * len(good)
     impl = run_hist(exe, lines)
     model = vf.run_driver(lines)
-    corr.compare(lines, impl, model)
+    corr.compare(lines, impl, model, in_domain=in_domain)
     if corr.disagreements:
         d = corr.disagreements[0]
         small = shrink_disagreement(exe, d["request"])
